@@ -13,6 +13,7 @@ code -> spec : the workers log start/end of every task (O_APPEND); TraceParallel
 
 from __future__ import annotations
 
+import copy
 import hashlib
 import json
 import os
@@ -110,7 +111,7 @@ def _field(n, variant):
     centres, drops = [], []
     for k in range(n):
         c = np.array([7.0 + 14.0 * k + rng.uniform(-1, 1), 8.0 + rng.uniform(-1, 1)])
-        r = rng.uniform(3.0, 4.5)
+        r = rng.uniform(2.0, 3.0) if k % 2 else rng.uniform(3.5, 4.5)   # clearly different sizes
         centres.append(c)
         drops.append(DiffuseDroplet(c, r, interface_width=rng.uniform(0.8, 1.3)))
     if variant == 2:
@@ -229,8 +230,8 @@ def run(out: core.Outcome) -> None:
                 field, centres, kw = _field(n, variant)
                 _CENTRES = centres
                 _NONE = set(none)
-                serial, _ = _run_forced("refine", lambda: locate_droplets(field, refine=True, num_processes=1, **kw), None, 1, "s")
-                serial2, _ = _run_forced("refine", lambda: locate_droplets(field, refine=True, num_processes=1, **kw), None, 1, "s")
+                serial, _ = _run_forced("refine", lambda: locate_droplets(field, refine=True, num_processes=1, **copy.deepcopy(kw)), None, 1, "s")
+                serial2, _ = _run_forced("refine", lambda: locate_droplets(field, refine=True, num_processes=1, **copy.deepcopy(kw)), None, 1, "s")
                 out.evaluations += 2
                 if not _same(serial, serial2):
                     out.violation({"scenario": "refine", "config": name, "variant": variant, "fails": ["serial-run-not-repeatable"]})
@@ -241,7 +242,7 @@ def run(out: core.Outcome) -> None:
                         if procs == 1:
                             continue
                         try:
-                            res, ev = _run_forced("refine", lambda: locate_droplets(field, refine=True, num_processes=procs, **kw), sched, w, "p")
+                            res, ev = _run_forced("refine", lambda: locate_droplets(field, refine=True, num_processes=procs, **copy.deepcopy(kw)), sched, w, "p")
                         except Exception as exc:  # noqa: BLE001
                             out.evaluations += 1
                             out.violation({"scenario": "refine", "config": name, "variant": variant, "schedule": list(sched), "num_processes": procs,
@@ -254,9 +255,9 @@ def run(out: core.Outcome) -> None:
                 if w > 1 and not none:
                     field.data[...] = np.roll(field.data, 3, axis=1)
                     _CENTRES = [c + np.array([0.0, 3 * 0.5]) for c in centres]
-                    ser2, _ = _run_forced("refine", lambda: locate_droplets(field, refine=True, num_processes=1, **kw), None, 1, "s")
+                    ser2, _ = _run_forced("refine", lambda: locate_droplets(field, refine=True, num_processes=1, **copy.deepcopy(kw)), None, 1, "s")
                     try:
-                        par2, _ = _run_forced("refine", lambda: locate_droplets(field, refine=True, num_processes=w, **kw), None, w, "p")
+                        par2, _ = _run_forced("refine", lambda: locate_droplets(field, refine=True, num_processes=w, **copy.deepcopy(kw)), None, w, "p")
                         out.evaluations += 2
                         if not _same(par2, ser2):
                             out.violation({"scenario": "refine-after-inplace-update", "config": name, "variant": variant, "num_processes": w,
